@@ -32,12 +32,24 @@ def memo_of(fnode):
                 hit = (r.value.attr, ast.unparse(r.slice), st)
                 break
     if hit is None:
+        # the other spelling:  if k not in self.C: <compute>; self.C[k] = v    ...   return self.C[k]
+        for st in fnode.body:
+            if isinstance(st, ast.If) and isinstance(st.test, ast.Compare) and len(st.test.ops) == 1 and isinstance(st.test.ops[0], ast.NotIn) and not st.orelse:
+                c = st.test.comparators[0]
+                if isinstance(c, ast.Attribute) and isinstance(c.value, ast.Name) and c.value.id == 'self':
+                    key = ast.unparse(st.test.left)
+                    fills = [x for x in ast.walk(st) if isinstance(x, ast.Assign) and len(x.targets) == 1 and isinstance(x.targets[0], ast.Subscript)
+                             and ast.unparse(x.targets[0].value) == 'self.%s' % c.attr and ast.unparse(x.targets[0].slice) == key]
+                    rets = [r for r in fnode.body if isinstance(r, ast.Return) and isinstance(r.value, ast.Subscript) and ast.unparse(r.value.value) == 'self.%s' % c.attr
+                            and ast.unparse(r.value.slice) == key]
+                    if fills and rets:
+                        return c.attr, key, st, fills, 'miss-fill', rets[0]
         return None
     stores = [s for s in ast.walk(fnode) if isinstance(s, ast.Assign) and len(s.targets) == 1 and isinstance(s.targets[0], ast.Subscript)
               and ast.unparse(s.targets[0].value) == 'self.%s' % hit[0]]
     if not stores:
         return None
-    return hit[0], hit[1], hit[2], stores
+    return hit[0], hit[1], hit[2], stores, 'hit-return', None
 
 
 def check_method(ix, rep, cls, f, label, rule='R-CACHE'):
@@ -45,7 +57,7 @@ def check_method(ix, rep, cls, f, label, rule='R-CACHE'):
     m = memo_of(f.node)
     if m is None:
         return 0
-    attr, key, hitnode, stores = m
+    attr, key, hitnode, stores = m[:4]
     tot = E.transitive_effects(ix, cls, f.node.name)
     deps = sorted(a for a in tot.reads if a != attr and ix.resolve_method(cls, a) is None)
     # an attribute whose value is part of the key is covered by the key
